@@ -49,7 +49,7 @@ F_VIS = [-2., -1.5, -1., -0.5, -0.25, 0., 0., 0.25, 0.5, 0.75, 1., 1., 1.5, 2., 
 F_HID_BENIGN = [0.5, 1., 2., 0.25, 3.]
 F_HID_ADV = [0., -1., 1024., -1024., 800., 2., -2., 1.5, -0.5, 710., 1. / 1024, -3., 1e-3, 0., -0.0, 1., 0.5,
              709.782712893384, 709.7827128933841, -1.0000000000000002, 1.0000000000000002, 0., -0.0, 2.5, -7.5]
-I_HID_ADV = [0, -1, 10 ** 6, -10 ** 6, 7, -7, 3, 2 ** 40, -2 ** 40, 1, 2]
+I_HID_ADV = [0, -1, 10 ** 6, -10 ** 6, 7, -7, 3, 2 ** 40, -2 ** 40, 1, 2, -2, -3, 2 ** 63 - 1, -2 ** 63, 0, -1, 63, 64]
 SHAPES = [[], [1], [2], [3], [4], [2, 3], [3, 2], [1, 3], [2, 1], [3, 3], [0], [2, 0], [2, 2, 2], [5]]
 
 
@@ -66,7 +66,7 @@ def rand_mask(rng, shape):
     return bits, rng.choice(mask_reps(bits, shape))
 
 
-def gen_leaf(rng, t, shape, derivs=True, axis_len=3, mask=None):
+def gen_leaf(rng, t, shape, derivs=True, axis_len=3, mask=None, nonneg=False):
     n = int(np.prod(shape, dtype=int))
     isz = int(np.prod(O.ITEM[t], dtype=int))
     bits, rep = rand_mask(rng, shape) if mask is None else mask
@@ -79,8 +79,15 @@ def gen_leaf(rng, t, shape, derivs=True, axis_len=3, mask=None):
                 b = rng.choice(F_HID_ADV)
             elif t in ('I', 'P'):
                 vis = rng.randint(-axis_len, axis_len - 1) if rng.random() < 0.85 else rng.choice([axis_len, -axis_len - 1, 5])
+                if nonneg:
+                    vis = abs(vis)
                 a = rng.randint(0, max(axis_len - 1, 0))
                 b = rng.choice(I_HID_ADV) if rng.random() < 0.5 else rng.randint(-axis_len, max(axis_len - 1, 0))
+                if not shape and abs(b) >= 2 ** 62:
+                    # a SHAPELESS integer object holds a Python int: arithmetic on an int64 extreme leaves the int64 range
+                    # silently and NumPy ufuncs then raise TypeError/OverflowError - a finite-precision artefact (like float
+                    # overflow), not judged; the int64 extremes are generated for array operands only
+                    b = rng.choice([2 ** 40, -2 ** 40, -1, 0])
             else:
                 vis = rng.random() < 0.5
                 a = rng.random() < 0.5
@@ -137,8 +144,8 @@ def red_shape(shape, ax):
 
 
 class Gen:
-    def __init__(self, rng, base, derivs=True, vectors=False):
-        self.rng, self.base, self.env, self.derivs, self.vectors = rng, list(base), [], derivs, vectors
+    def __init__(self, rng, base, derivs=True, vectors=False, ints=0.0):
+        self.rng, self.base, self.env, self.derivs, self.vectors, self.ints = rng, list(base), [], derivs, vectors, ints
 
     def leaf_shape(self):
         r = self.rng.random()
@@ -156,6 +163,8 @@ class Gen:
         rng = self.rng
         shape = self.leaf_shape() if shape is None else shape
         # reuse an existing variable sometimes (x - x, x == x ...)
+        if t == 'F' and self.ints and rng.random() < self.ints:
+            t = 'I'                     # an INTEGER Scalar in a numeric position
         cands = [i for i, l in enumerate(self.env) if l['t'] == t and l['shape'] == list(shape)]
         if cands and rng.random() < 0.25:
             return (['v', rng.choice(cands)], t, list(shape))
@@ -478,6 +487,31 @@ def gen_twonames(rng, shape):
 def gen_cases(rng, tier):
     thorough = tier == 'thorough'
     cases = []
+    # 1c. INTEGER operands (int64 Scalars) in numeric positions: **, //, %, /, arithmetic, comparisons, reductions, sort,
+    #     int(); hidden values special for integers (negative exponents, zero divisors, -1, int64 min / max, shifts 63 / 64)
+    for _ in range(10 if thorough else 2):
+        for shape in SHAPES:
+            for name in ['powS', 'floordiv', 'mod', 'div', 'add', 'sub', 'mul', 'eq', 'ne', 'lt', 'ge', 'tvl_lt', 'maximum',
+                         'minimum', 'stack']:
+                for kinds in (('I', 'I'), ('I', 'F'), ('F', 'I')):
+                    if name != 'powS' and kinds != ('I', 'I') and rng.random() < 0.5:
+                        continue
+                    g = Gen(rng, shape, derivs=False)
+                    a, _, _ = g.leaf(kinds[0])
+                    sb = g.leaf_shape()
+                    g.env.append(gen_leaf(rng, kinds[1], sb, derivs=False, axis_len=3, nonneg=(name == 'powS')))
+                    b = ['v', len(g.env) - 1]
+                    cases.append(mk_case([name, [], a, b], g.env, 'int:' + name))
+            for name, params in ([('pow', [e]) for e in (0, 1, 2, 3, -1, -2, 0.5, 5)] + [('neg', []), ('abs', []), ('sign', []),
+                                 ('int', []), ('as_float', []), ('sqrt', []), ('recip', []), ('sum', [None]), ('mean', [None]),
+                                 ('max', [None]), ('min', [None]), ('median', [None]), ('argmax', [None]), ('sum', [0]),
+                                 ('max', [0]), ('sort', [0]), ('floordivc', [2]), ('modc', [2]), ('mulc', [3]), ('divc', [2]),
+                                 ('rdivc', [1]), ('ltc', [1]), ('eqc', [0]), ('pickle', []), ('copy', [])]):
+                if name in ('sum', 'max', 'sort') and params == [0] and not shape:
+                    continue
+                g = Gen(rng, shape, derivs=False)
+                x, _, _ = g.leaf('I', list(shape))
+                cases.append(mk_case([name, params, x], g.env, 'int:' + name))
     # 1b. the option values of the public element-wise and reducing methods
     for _ in range(8 if thorough else 2):
         for shape in SHAPES:
@@ -575,7 +609,7 @@ def gen_cases(rng, tier):
     # 6. compositions: expression trees to depth 3
     ntrees = 40000 if thorough else 9000
     for k in range(ntrees):
-        g = Gen(rng, rng.choice(SHAPES))
+        g = Gen(rng, rng.choice(SHAPES), ints=rng.choice([0.0, 0.0, 0.0, 0.25, 0.6]))
         depth = rng.choice([2, 2, 3, 3, 1])
         t, _, _ = g.gen(depth, rng.choice(['F', 'F', 'F', 'B']))
         cases.append(mk_case(t, g.env, 'tree:d%d' % O.tree_depth(t)))
@@ -632,6 +666,8 @@ def oracle(case):
         return None
     na, wa = O.eval_nodes(case['tree'], case['env'], 'A')
     nb, wb = O.eval_nodes(case['tree'], case['env'], 'B')
+    if any(w.startswith('bigint:') for w in wa + wb):
+        return None         # a shapeless integer object outgrew int64 (Python int): finite-precision artefact, not judged
     # warnings that NumPy merely EMITS are not among the property's observables (class, shape, mask, units, unmasked
     # values and derivative values, truth values, whether an exception is raised): they are recorded but not compared
     for (pa, opa, oa), (pb, opb, ob) in zip(na, nb):
